@@ -70,8 +70,8 @@ def _render(t, spell, sp, parent=0, right=False):
 
 def transformations(base, pools):
     """yields (name, path, transformed AST)"""
-    hint = ("hint", pools["hint"][5])
-    fc = ("fc", pools["fc"][5])
+    hint = ("hint", pools["hint"][1])  # the added keys are the range boundaries (900 / 999 for seed 0)
+    fc = ("fc", pools["fc"][1])
     for path, sub in A.subtrees(base):
         parent = None
         if path:
@@ -180,7 +180,7 @@ def check_base_mode(base_ast, seed, mode):
         for a in X.assignments(rckeys):
             r = I.try_call(lambda: M.run(mode, lambda: I.requirement_constraint_evaluation(expr), rc=a,
                                          fc={k: (True, None) for k in A.keys_of(ast, "fc")},
-                                         hints={k: ("" if k == pools["hint"][5] else f"Hinweis {k}") for k in hk}))
+                                         hints={k: ("" if k == pools["hint"][1] else f"Hinweis {k}") for k in hk}))
             res[tuple(a[k] for k in rckeys)] = r[1].requirement_constraints_fulfilled if r[0] == "ok" else "exc:" + r[1]
         return expr, res
 
@@ -207,7 +207,7 @@ def run_item(item):
         from mc import impl_modes as M
 
         try:
-            for ast in A.asts(item["n"], "all", pools={k: v[:5] for k, v in pools.items()}):
+            for ast in A.asts(item["n"], "all", pools={k: [v[0]] + v[2:] for k, v in pools.items()}):
                 if not A.is_valid(ast):
                     continue
                 vs, n = check_base_mode(ast, item["seed"], item["mode"])
@@ -223,7 +223,7 @@ def run_item(item):
             M.restore()
         return r
     i = -1
-    for ast in A.asts(item["n"], item["lab"], pools={k: v[:5] for k, v in pools.items()}):
+    for ast in A.asts(item["n"], item["lab"], pools={k: [v[0]] + v[2:] for k, v in pools.items()}):
         if not A.is_valid(ast):
             continue
         i += 1
